@@ -1193,7 +1193,7 @@ func genQueries(r *hlib.Rng, f *dbfile, count int) []struct {
 
 // ---------------------------------------------------------------- main
 
-func sepChild(a *hlib.Args, cases []*c03case) error {
+func sepChildInto(a *hlib.Args, cases []*c03case, into map[*c03case]*obs) error {
 	// run the CDB part again in a child process with per-family prefix sets
 	inp := filepath.Join(a.Scratch, "c03-sep-in.jsonl")
 	outp := filepath.Join(a.Scratch, "c03-sep-out.jsonl")
@@ -1233,7 +1233,18 @@ func sepChild(a *hlib.Args, cases []*c03case) error {
 		if err := json.Unmarshal(m["obs"], &ob); err != nil {
 			return err
 		}
-		cases[i].Obs["cdbsep"] = ob["cdb"]
+		into[cases[i]] = ob["cdb"]
+	}
+	return nil
+}
+
+func sepChild(a *hlib.Args, cases []*c03case) error {
+	into := map[*c03case]*obs{}
+	if err := sepChildInto(a, cases, into); err != nil {
+		return err
+	}
+	for c, o := range into {
+		c.Obs["cdbsep"] = o
 	}
 	return nil
 }
@@ -1406,12 +1417,13 @@ func run(a *hlib.Args, e *hlib.Emitter) error {
 
 	r2 := hlib.NewRng(a.Seed, 303)
 	nfiles := len(fixedFiles) + a.N/12
+	var groups [][]*c03case
 	for i := 0; i < nfiles; i++ {
 		f := genFile(r2, i)
 		var group []*c03case
-		nq := 110
+		nq := 100
 		if i == 0 {
-			nq = 260
+			nq = 220
 		}
 		for _, qc := range genQueries(r2, f, nq) {
 			c := &c03case{Kind: "db", Class: qc.class, Maps: f.maps, Nets: f.nets, Q: qc.q, File: f.text}
@@ -1423,13 +1435,38 @@ func run(a *hlib.Args, e *hlib.Emitter) error {
 			}
 			group = append(group, c)
 		}
-		if err := runFileCases(a, group, false); err != nil {
-			return fmt.Errorf("file %d: %w\n%s", i, err, f.text)
-		}
-		dbcases = append(dbcases, group...)
+		groups = append(groups, group)
 	}
-	if err := sepChild(a, dbcases); err != nil {
-		return err
+	// compile and query the files concurrently (generation above is sequential and seeded);
+	// the child with per-family prefix sets runs meanwhile
+	for _, g := range groups {
+		dbcases = append(dbcases, g...)
+	}
+	for _, c := range dbcases {
+		c.Obs = map[string]*obs{}
+	}
+	errs := make(chan error, len(groups)+1)
+	sem := make(chan struct{}, 4)
+	for i := range groups {
+		go func(i int) {
+			sem <- struct{}{}
+			defer func() { <-sem }()
+			if err := runFileCases(a, groups[i], false); err != nil {
+				errs <- fmt.Errorf("file %d: %w\n%s", i, err, groups[i][0].File)
+				return
+			}
+			errs <- nil
+		}(i)
+	}
+	sepObs := map[*c03case]*obs{}
+	go func() { errs <- sepChildInto(a, dbcases, sepObs) }()
+	for i := 0; i < len(groups)+1; i++ {
+		if err := <-errs; err != nil {
+			return err
+		}
+	}
+	for c, o := range sepObs {
+		c.Obs["cdbsep"] = o
 	}
 	for _, g := range groupByFile(dbcases) {
 		emitGroups(e, g, "")
